@@ -30,9 +30,10 @@ AREAS["C01"] = {
                   "the specification (newest delivered point per identity, all fields) is evaluated on the real dumps",
     "level_note": "trusted: Coq kernel, extraction, OCaml driver, Go harness; modelled not verified: SQLite, NATS, protobuf transport; theorems assume distinct times per identity and no NaN (refused, C05)",
 }
+TRANSLATOR_TRUST = 'translator harness/cmd/anchors (go/parser + go/types, no imports followed): prints constants, tables, modbus.RtuCrc (as a MiniGo syntax tree) and data.Point.CRC (as the list of steps feeding its hash, meaning stated in MiniGo/Recipe.v + Anchors/TiePointCrc.v) from the sources into coq/theories/Anchors/Generated.v before every build; the *_from_source theorems are re-checked against that text; MiniGo/Syntax.v is the stated semantics of the fragment'
 AREAS["C03"] = {
     "known_soft_only": True,
-    "area": "c03", "id": 3, "coq": ["Base", "Store", "Properties/C03.v"], "rule": STORE_RULE, "trusted": STORE_TRUSTED, "assumptions": STORE_ASSUME,
+    "area": "c03", "id": 3, "coq": ["Base", "Store", "Properties/C03.v", "MiniGo/Recipe.v", "Anchors/Generated.v", "Anchors/TiePointCrc.v"], "rule": STORE_RULE, "trusted": STORE_TRUSTED + [TRANSLATOR_TRUST], "assumptions": STORE_ASSUME,
     "level_text": "proof: the incremental XOR-Merkle update of the model preserves the from-scratch hash equation on every edge for every history and every acyclic graph shape "
                   "(path-parity argument, fuel adequacy); the model's hashes must equal the instance's after every request, and every dumped hash is recomputed independently from the dump",
     "level_note": "trusted as C01; CRC-32 collisions are outside the claim (delta != 0 is a hypothesis of the propagation clause); a change below an even number of paths cancels by the XOR definition itself (known finding K2)",
